@@ -245,6 +245,12 @@ def run_shard(spec, ctx):
                     for lp in LOAD_PATHS:
                         run_require(ctx, U, ap, lp, hostile)
                         run_require(ctx, U, ap + '.lua', lp, hostile)
+                # a load-path separator inside the string followed by an absolute path
+                for pre in ('nope;', 'x;', ';', 'sub/x;', '?;'):
+                    for hostile in (False, True):
+                        for lp in LOAD_PATHS:
+                            run_require(ctx, U, pre + ap, lp, hostile)
+                            run_require(ctx, U, pre + ap + '.lua', lp, hostile)
             ctx.feature('absolute_paths_done')
             return
         allS = strings(spec['N'])
